@@ -14,7 +14,7 @@ CFG = {
                   "a stable insertion sort in the model (correct where the comparison is a strict total order, or any strict weak order for the stable sort; "
                   "sorting itself is C10), json.Marshal/Unmarshal act on decoded data (C15), Go's append growth policy is an oracle (any capacity >= needed; "
                   "the check feeds the observed capacity back and compares capacities exactly wherever the code does not append/grow), int is unbounded Z "
-                  "(no wrap-around in Sum/Avg; the harness stays far below 2^63), float64 Avg is not covered, BinarySearch(Func) is specified only on receivers on "
+                  "(no wrap-around in Sum/Avg; the harness stays far below 2^63), float instantiations are exercised against a Go-computed reference only (see FLOATS below), BinarySearch(Func) is specified only on receivers on "
                   "which the comparison is monotone (elsewhere only capacity independence and model agreement). The Safe* wrappers are the same functions (locking is C11); "
                   "they are exercised by the tie with identical expected output. bmap: a Go map is a key-sorted association list, `range` runs in key order "
                   "(results that depend on Go's iteration order are compared as sorted collections; order independence of Merge/Copy/DeleteFunc under other iteration orders is "
@@ -33,13 +33,14 @@ CFG = {
                   "must never change again (kind 2). Capacity is judged kind 2 only where the contents determine it (Spec.pure_cap: Clear -> 0, Clip -> len; theorem C06_certain_cap), elsewhere kind 1. "
                   "N5 (found while adding struct elements, patch notes/fixes/0042): Unmarshal decoded documents past len into elements lying in the spare capacity (removed elements reappear, result depends on spare capacity); "
                   "Spec: document i merges with element i of the CONTENTS only (merge_all); struct elements are exercised as codes ID*16+nameIndex on Unsafe/SafeAny[struct] (harness recs.go). "
+                  "Callbacks that look at the receiver mid-call: bslice - a share of the cases wraps the user function so that it reads the receiver (live ToMetaSlice on unsafe wrappers, the captured underlying slice on safe ones); for every callback-taking method except the in-place ones (CompactFunc, in-place sorts) it must see the receiver as it was before the call (Spec.sees_unchanged, judged on the implementation only, kind 2; the call-level model has no intermediate states, and the ORDER/number of callback calls is not judged). bmap - DeleteFunc with callbacks on the live size (len(m) > keep, parity ...): which pairs go depends on the iteration order of the Go map, so the checker judges what holds for every order (sizes seen by the callback, number of pairs left, left pairs are old pairs, each key visited once) and continues from the observed map; C06_live_delete proves these figures for the model loop, C06_bmap covers the op. FLOATS: the Ordered/Calculable wrappers are also run over float64 and float32 (NaN, +0/-0, +-Inf, subnormals, MaxFloat) for Min/Max/Sum/Avg/Sort/IsSorted/BinarySearch/Contains/IndexFunc/Compare/Equal/Compact; the float REFERENCE (pure left fold / plain loop with the same bmath function) is computed in Go by the harness, NOT in Coq: Coq only checks bit-pattern equality with that reference, unsafe-vs-safe agreement and capacity independence (every disagreement is kind 2; there is no Coq model or theorem for float arithmetic; Sort is run only on NaN-free contents without mixed zeros). "
                   "C06_D9/D10/D11_unrepaired_refuted show that the pre-repair code paths violate C06_copy / C06_cap.",
     "harness": "c06",
     "theorems": [("C06.Props", [
         "C06_pure", "C06_errors", "C06_copy", "C06_cap", "C06_search", "C06_bmap", "C06_fmap_laws",
         "C06_D9_unrepaired_refuted", "C06_D10_unrepaired_refuted", "C06_D11_unrepaired_refuted",
         "C06_N1_unrepaired_refuted", "C06_N2_unrepaired_refuted", "C06_N3_unrepaired_refuted", "C06_N4_unrepaired_refuted",
-        "C06_certain_cap", "C06_detach", "C06_N5_unrepaired_refuted"])],
+        "C06_certain_cap", "C06_detach", "C06_N5_unrepaired_refuted", "C06_live_delete"])],
     "trusted": [
         "capacity oracle of append/Grow/Clone/Filter/Unmarshal: universally quantified in the theorems (any oc); in the tie it is instantiated with the capacity the Go runtime chose",
         "sorting and JSON codecs are modelled abstractly (stable insertion sort on the loaded window; decoded JSON data)",
